@@ -587,7 +587,7 @@ def run(argv):
     if grid_color is not None:
         pl.grid_color = grid_color
     if grid_width is not None:
-        pl.grid_width = grid_width
+        pl.grid_lw = grid_width
     if markers is not None:
         pl.markers = markers
     if lab_font_size is not None:
